@@ -46,7 +46,7 @@ pub fn label_pool(n: usize) -> Vec<String> {
 /// character, Greek('α'), an index of eight digits (save/load and clone must keep them apart all the same)
 pub fn odd_labels() -> Vec<String> {
     // ... and Str values ending in white space that is not the padding blank (TAB, no-break space) next to the trimmed twin
-    ["~s:a b", "~s:z", "~g:α", "α12345678", "ab", "~s:αb", "ab\t", "ab\u{a0}", "~s:ab \t"].iter().map(|s| s.to_string()).collect()
+    ["~s:a b", "~s:z", "~g:α", "α12345678", "ab", "~s:αb", "ab\t", "ab\u{a0}", "~s:ab \t", "a\"b", "a\\b"].iter().map(|s| s.to_string()).collect()
 }
 
 /// data values on both sides of the 8-byte inline boundary
